@@ -42,6 +42,8 @@ type crashScenario struct {
 	BigTxn     int      `json:"big_txn,omitempty"` // commands in the transaction of symbol tL (0 = 1100)
 	Soft       bool     `json:"soft,omitempty"`    // after an orderly stop the SAME RedisOutput is used again (in-process reconnection: StartPoint, SetRunId, Send), no crashes
 	Rekey      bool     `json:"rekey,omitempty"`   // from the first restart on the source reports a new replication id (fail-over, same history): the stored position is re-keyed
+	NoCrash    bool     `json:"no_crash,omitempty"` // the fault budget is spent on orderly stops only
+	Gc         int      `json:"gc,omitempty"`      // up to this many passes of the stale-checkpoint collector (what cmd gcStaleCheckpoint does on the target) between stream events while the sender lives, now or after an idle period longer than the stale duration
 }
 
 type runRec struct {
@@ -56,6 +58,7 @@ type runRec struct {
 	Stopped    bool   // ended by an orderly stop
 	Retry      bool   // not a restart: the same run going on after a connection loss (the sender retried)
 	Completed  bool // stream fed to the end and flushed
+	StartRunId string `json:",omitempty"` // run id of the position StartPoint returned ("?" = a position without an id)
 }
 
 type cpWrite struct {
@@ -76,6 +79,7 @@ type crashRec struct {
 	Early  *mc.Result // a violation detected while driving (e.g. resume offset not a boundary)
 	Marks  []string   // event -> request seq reached (debugging aid, part of replay output)
 	Merged int        // crash points represented by their predecessor (no effect on the target's data)
+	Gcs    int        // collector passes that ran
 }
 
 type crashCtl struct {
@@ -206,11 +210,32 @@ func crashExec(t *testing.T, scn crashScenario, ch *mc.Chooser) (rec crashRec, m
 		env := newAofEnv(t)
 		items := buildStream(scn.Syms)
 		rec.Items = items
-		ctl := &crashCtl{env: env, ch: ch, left: scn.MaxCrashes, marks: &rec.Marks, kill: scn.Kill, noCrash: scn.Soft}
+		ctl := &crashCtl{env: env, ch: ch, left: scn.MaxCrashes, marks: &rec.Marks, kill: scn.Kill, noCrash: scn.Soft || scn.NoCrash}
 		defer func() { rec.Merged = ctl.merged }()
 		ticks := tickNames(scn.Cfg)
 		cfg := scn.Cfg.outputConfig(cpKeyName)
 		var prevRo *RedisOutput // the output of the previous run when that run ended by an orderly stop
+		gcLeft := scn.Gc
+		var srcIds []string // the ids the source reports in the run under way
+		// gcHere offers one pass of the stale-checkpoint collector at this point of the history
+		// (0 = none, 1 = a pass now, 2 = a pass after an idle period longer than the stale duration)
+		gcHere := func(tag string) {
+			if gcLeft <= 0 || machinery != "" {
+				return
+			}
+			a := ch.ChooseFree("gc."+tag, 3)
+			if a == 0 {
+				return
+			}
+			gcLeft--
+			rec.Gcs++
+			n0 := env.srv.NumReqs()
+			if err := gcStalePass(cfg, srcIds, a == 2); err != nil {
+				machinery = "collector pass failed on a healthy target: " + err.Error()
+			}
+			aofWait()
+			rec.Marks = append(rec.Marks, fmt.Sprintf("gc.%s(%d)->%d..%d", tag, a, n0+1, env.srv.NumReqs()))
+		}
 		for runNo := 0; runNo < scn.MaxCrashes+2; runNo++ {
 			rr := runRec{FirstSeq: env.srv.NumReqs() + 1, StartDb: -1}
 			if runNo > 0 {
@@ -231,6 +256,7 @@ func crashExec(t *testing.T, scn crashScenario, ch *mc.Chooser) (rec crashRec, m
 					ids = []string{rekeyID, aofRunID}
 				}
 				env.runID = ids[0]
+				srcIds = ids
 				if scn.Soft && prevRo != nil {
 					// in-process reconnection (RedisInput.Run loop): the same output is asked for its start
 					// point, told the run id, and sent the stream again
@@ -286,7 +312,7 @@ func crashExec(t *testing.T, scn crashScenario, ch *mc.Chooser) (rec crashRec, m
 					bootErr = err
 					return
 				}
-				rr.StartPoint, rr.StartDb = sp.Offset, sp.DbId
+				rr.StartPoint, rr.StartDb, rr.StartRunId = sp.Offset, sp.DbId, sp.RunId
 				if sp.IsInitial() || sp.Offset < 0 || !slices.Contains(ids, sp.RunId) {
 					// no usable position: the tool takes a full sync; the (empty) snapshot
 					// ends at S0 and its completion stores S0 (sendRdb -> setCheckpoint)
@@ -365,6 +391,7 @@ func crashExec(t *testing.T, scn crashScenario, ch *mc.Chooser) (rec crashRec, m
 				if stopped = stopHere(); stopped {
 					break
 				}
+				gcHere(fmt.Sprintf("r%d.p%d", runNo, run.pos))
 				fired := 0
 				for fired < maxTicks && !crashed && !run.ended {
 					a := ch.Choose(fmt.Sprintf("r%d.pre%d.%d", runNo, run.pos, fired), 1+len(ticks))
@@ -392,6 +419,7 @@ func crashExec(t *testing.T, scn crashScenario, ch *mc.Chooser) (rec crashRec, m
 				crashed = doEvent(func() { run.release(1 + two) })
 			}
 			if !stopped && !crashed && !run.ended {
+				gcHere(fmt.Sprintf("r%d.end", runNo))
 				stopped = stopHere()
 			}
 			fired := 0
@@ -443,6 +471,44 @@ func crashExec(t *testing.T, scn crashScenario, ch *mc.Chooser) (rec crashRec, m
 		machinery = "bubble: " + msg
 	}
 	return
+}
+
+// gcStaleDur is the stale duration the collector passes of the H-aof harness use (the tool's default).
+const gcStaleDur = 12 * time.Hour
+
+// gcStalePass is one pass of the stale-checkpoint collector over the target, the way
+// (*SyncerCmd).gcStaleCheckpoint of package cmd does it for a stand-alone target: every entry of the
+// checkpoint index is handed to the real checkpoint.DelStaleCheckpoint (the newest database of an id
+// the source still reports is spared), an index entry of an unknown id whose data is gone is dropped.
+// idle: the (bubble's) clock first advances beyond the stale duration - the sender's own tickers are
+// harness events and do not fire.
+func gcStalePass(cfg RedisOutputConfig, srcIds []string, idle bool) error {
+	if idle {
+		time.Sleep(gcStaleDur + time.Minute)
+	}
+	cli, err := client.NewRedis(cfg.Redis)
+	if err != nil {
+		return err
+	}
+	defer cli.Close()
+	data, err := checkpoint.GetAllCheckpointHash(cli)
+	if err != nil {
+		return err
+	}
+	for i := 0; i+1 < len(data); i += 2 {
+		runId, cpn := data[i], data[i+1]
+		exist := slices.Contains(srcIds, runId)
+		total, deleted, err := checkpoint.DelStaleCheckpoint(cli, cpn, runId, gcStaleDur, exist)
+		if err != nil {
+			return err
+		}
+		if !exist && total == deleted {
+			if err := checkpoint.DelCheckpointHash(cli, runId); err != nil {
+				return err
+			}
+		}
+	}
+	return nil
 }
 
 // runOf returns the index of the run a request belongs to.
